@@ -5,6 +5,7 @@ This module handles parsing of CSV files and other transaction formats.
 """
 
 import csv
+import math
 import re
 from datetime import datetime
 
@@ -266,6 +267,8 @@ def parse_generic_csv(filepath, format_spec, rules, source_name='CSV',
 
             # Parse amount (handle locale-specific formats)
             amount = parse_amount(amount_str, decimal_separator)
+            if not math.isfinite(amount):
+                continue  # 'nan' / 'inf' cells are not amounts
 
             # Apply amount modifier if specified
             if format_spec.abs_amount:
